@@ -135,6 +135,9 @@ pub struct NodeState {
 
 pub struct Node {
     pub st: Mutex<NodeState>,
+    /// run once, outside the node's lock, right before the n-th block download (counted from arming) is answered: lets a
+    /// harness act at a precise point inside a poll, e.g. between the disconnections and the connections of a reorg
+    pub get_block_hook: Mutex<Option<(usize, Box<dyn FnMut() + Send>)>>,
 }
 
 thread_local! {
@@ -489,7 +492,7 @@ impl Node {
         for _ in 0..height {
             st.mine(&|_, _| false, &[]);
         }
-        Arc::new(Node { st: Mutex::new(st) })
+        Arc::new(Node { st: Mutex::new(st), get_block_hook: Mutex::new(None) })
     }
 
     pub fn lock(&self) -> std::sync::MutexGuard<'_, NodeState> {
@@ -552,6 +555,22 @@ impl BlockSource for Node {
 
     fn get_block<'a>(&'a self, header_hash: &'a BlockHash) -> AsyncBlockSourceResult<'a, BlockData> {
         Box::pin(async move {
+            {
+                let due = {
+                    let mut h = self.get_block_hook.lock().unwrap();
+                    match h.as_mut() {
+                        Some((n, _)) if *n <= 1 => h.take().map(|(_, f)| f),
+                        Some((n, _)) => {
+                            *n -= 1;
+                            None
+                        }
+                        None => None,
+                    }
+                };
+                if let Some(mut f) = due {
+                    f();
+                }
+            }
             let mut st = self.lock();
             if st.gate(false) {
                 st.log_event(Call::GetBlock(*header_hash), Verdict::TransportError);
